@@ -59,7 +59,7 @@ theorem vmOk_of_embedded_execution (c : Ledger.Cfg) (s : Ledger.State) (tx : Led
     -- side conditions of C15's theorems
     (hnn : b.NonNeg) (hafford : (t.amt : Int) ≤ b.bal t.snd)
     (hown : ∀ cl ∈ trace, ∀ a, cl.actor = some a → a ≠ t.snd)
-    (hf : 0 < t.fpg) (hsmall : t.fpg < 2 * 10 ^ 16) (hfee : t.txFee ≤ t.maxFee) :
+    (hf : 0 < t.fpg) (hfee : t.txFee ≤ t.maxFee) :
     Ledger.calcFee s.g.headNetSize s.g.feePerGas tx + Ledger.gasCost s.g.feePerGas tx.ext.vmGasUsed ≤ tx.maxFee ∧
     0 ≤ Ledger.deltaAt tx.ext.vmDeltas tx.sender ∧
     ∀ a, a ≠ tx.sender → 0 ≤ (Ledger.contractWrapper c s tx t.c).balance a := by
@@ -69,7 +69,7 @@ theorem vmOk_of_embedded_execution (c : Ledger.Cfg) (s : Ledger.State) (tx : Led
   have hrun := (run_nonneg _ trace h0).1
   refine ⟨?_, ?_, ?_⟩
   · -- gas within what maxFee buys
-    have h1 := (fee_le_maxFee t hf hsmall hfee e.gas 0).1
+    have h1 := (fee_le_maxFee t hf hfee e.gas 0).1
     have hg : tx.ext.vmGasUsed = usedGasE e.gas (gasLimit t) := hgas
     rw [← hsame.txFee, ← hsame.maxFee, ← hsame.fpg, hg]
     unfold Ledger.gasCost
